@@ -54,6 +54,16 @@ Theorem C39_get_absent_size_test_first_refuted :
 Proof. exact presize_refuted. Qed.
 Print Assumptions C39_get_absent_size_test_first_refuted.
 
+(* ... and that is the ONLY difference: on encoder output the code as found agrees with the
+   specification for every slot that is present or is not the last one (so the repair
+   changes the result only for an absent last aggregate). *)
+Theorem C39_size_test_first_differs_only_on_absent_last : forall chks bytes t s,
+  forallb sub_wf chks = true -> encode chks = Some bytes -> nth_error chks t = Some s ->
+  (s <> None \/ (S t < List.length chks)%nat) ->
+  get_presize t bytes = expected s.
+Proof. exact get_presize_encode. Qed.
+Print Assumptions C39_size_test_first_differs_only_on_absent_last.
+
 (* Tie T: in the source of Get as it is now, the `l == 0` test comes before the
    test that mentions `int(l)+1`. *)
 Theorem C39_source_order : get_order_ok = true.
